@@ -1,8 +1,305 @@
 /-
-C02 — property theorems (stub; see DESIGN.md §6).
+C02 — Categories summarise exactly their members and respect the vigilance bound.
+
+Field theorems hold over every linearly ordered field (ℚ as executed, ℝ as the
+literature means it); float rounding is outside the theorem (the correspondence
+measures it).  The Euclidean containment clause of Hypersphere ART ("each new
+sphere contains the old one") is stated on the radius rule together with the
+centre displacement identity `‖c' − c‖ = R' − R` in squared form; see the notes
+at `sphere_contains_old_sq`.
 -/
-import ArtModel.Basic
+import ArtProofs.Kernels
 
 namespace Art.C02
+
+variable {X Wt μ θ : Type}
+
+section Generic
+variable {α : Type} [LinearOrder α]
+
+/-- **Exact summary, any module.**  After one training pass from an empty model
+(any mode, epsilon, reset function), the weight stored at index `k` is the
+module's learning rule folded over the samples labelled `k`, in presentation
+order, started from the new-category rule on the first of them; and an index
+holds no weight iff no sample carries that label. -/
+theorem categories_are_member_folds (K : Kernel X Wt α μ) (cfg : SearchCfg μ θ) (th0 : θ)
+    (veto : ArtState Wt → X → Nat → Bool) (xs : List X) (k : Nat) :
+    (partialFit K cfg th0 veto {} xs).W[k]? =
+      foldMembers K (members xs (partialFit K cfg th0 veto {} xs).labels k) :=
+  (weights_are_member_folds K cfg th0 veto xs).2 k
+
+end Generic
+
+section Field
+variable {α : Type} [Field α] [LinearOrder α] [IsStrictOrderedRing α]
+
+/-- meet (component-wise minimum) of a non-empty list of vectors: the bounding
+box of complement-coded samples -/
+def meetAll : List (List α) → Option (List α)
+  | [] => none
+  | m :: ms => some (ms.foldl (fun w x => vmin x w) m)
+
+/-- With fast learning the Fuzzy ART fold over members is their meet. -/
+theorem fuzzy_fold_is_meet (alpha d : α) (L : Nat) (ms : List (List α)) (hL : ∀ m ∈ ms, m.length = L) :
+    foldMembers (fuzzyKernel alpha 1 d) ms = meetAll ms := by
+  cases ms with
+  | nil => rfl
+  | cons m ms =>
+    simp only [foldMembers, meetAll, fuzzyKernel, fuzzyNew, Option.some.injEq]
+    have hm : m.length = L := hL m (by simp)
+    have hrest : ∀ x ∈ ms, x.length = L := fun x hx => hL x (by simp [hx])
+    clear hL
+    induction ms generalizing m with
+    | nil => rfl
+    | cons x xs ih =>
+      simp only [List.foldl_cons]
+      have hx : x.length = L := hrest x (by simp)
+      rw [fuzzyUpdate_one x m (by rw [hx, hm])]
+      exact ih (vmin x m) (by rw [vmin_len x m (by rw [hx, hm]), hm])
+        (fun y hy => hrest y (by simp [hy]))
+
+/-- **Fuzzy ART box = bounding box of its members** (learning rate 1, one pass). -/
+theorem fuzzy_box_exact (alpha d : α) (cfg : SearchCfg α θ) (th0 : θ)
+    (veto : ArtState (List α) → List α → Nat → Bool) (L : Nat) (xs : List (List α))
+    (hL : ∀ x ∈ xs, x.length = L) (k : Nat) :
+    (partialFit (fuzzyKernel alpha 1 d) cfg th0 veto {} xs).W[k]? =
+      meetAll (members xs (partialFit (fuzzyKernel alpha 1 d) cfg th0 veto {} xs).labels k) := by
+  rw [categories_are_member_folds]
+  apply fuzzy_fold_is_meet alpha d L
+  intro m hm
+  simp only [members, List.mem_map, List.mem_filter] at hm
+  obtain ⟨p, ⟨hp, _⟩, rfl⟩ := hm
+  exact hL _ (List.of_mem_zip hp).1
+
+/-- the meet is a lower bound of every member … -/
+theorem meetAll_le (L : Nat) (ms : List (List α)) (w : List α) (hL : ∀ m ∈ ms, m.length = L)
+    (h : meetAll ms = some w) : ∀ m ∈ ms, vle w m := by
+  cases ms with
+  | nil => simp [meetAll] at h
+  | cons m0 ms =>
+    simp only [meetAll, Option.some.injEq] at h
+    subst h
+    have key : ∀ (ms : List (List α)) (a : List α), a.length = L → (∀ x ∈ ms, x.length = L) →
+        vle (ms.foldl (fun w x => vmin x w) a) a ∧
+        (ms.foldl (fun w x => vmin x w) a).length = L ∧
+        ∀ x ∈ ms, vle (ms.foldl (fun w x => vmin x w) a) x := by
+      intro ms
+      induction ms with
+      | nil => intro a ha _; exact ⟨vle_refl a, ha, by simp⟩
+      | cons x xs ih =>
+        intro a ha hx
+        have hxl : x.length = L := hx x (by simp)
+        have hlen : (vmin x a).length = L := by rw [vmin_len x a (by rw [hxl, ha]), ha]
+        obtain ⟨h1, h2, h3⟩ := ih (vmin x a) hlen (fun y hy => hx y (by simp [hy]))
+        refine ⟨vle_trans h1 (vminLeRight x a (by rw [hxl, ha])), h2, ?_⟩
+        intro y hy
+        simp only [List.mem_cons] at hy
+        rcases hy with rfl | hy
+        · exact vle_trans h1 (vminLeLeft y a (by rw [hxl, ha]))
+        · exact h3 y hy
+    obtain ⟨h1, _, h3⟩ := key ms m0 (hL m0 (by simp)) (fun x hx => hL x (by simp [hx]))
+    intro m hm
+    simp only [List.mem_cons] at hm
+    rcases hm with rfl | hm
+    · exact h1
+    · exact h3 m hm
+
+/-- … and the greatest one: the box is the *smallest* box containing the members. -/
+theorem meetAll_greatest (ms : List (List α)) (w z : List α)
+    (h : meetAll ms = some w) (hz : ∀ m ∈ ms, vle z m) : vle z w := by
+  cases ms with
+  | nil => simp [meetAll] at h
+  | cons m0 ms =>
+    simp only [meetAll, Option.some.injEq] at h
+    subst h
+    have hz0 := hz m0 (by simp)
+    have hzr : ∀ x ∈ ms, vle z x := fun x hx => hz x (by simp [hx])
+    clear hz
+    induction ms generalizing m0 with
+    | nil => exact hz0
+    | cons x xs ih =>
+      simp only [List.foldl_cons]
+      exact ih (vmin x m0) (le_vmin (hzr x (by simp)) hz0) (fun y hy => hzr y (by simp [hy]))
+
+/-- **Weights only shrink** (regions only grow): one Fuzzy ART step leaves every
+weight component-wise ≤ its previous value, for every learning rate in `[0,1]`. -/
+theorem fuzzy_weights_antitone (alpha β d : α) (hβ0 : 0 ≤ β) (hβ1 : β ≤ 1)
+    (cfg : SearchCfg α θ) (th0 : θ) (veto : Nat → Bool) (s : ArtState (List α)) (x : List α)
+    (hlen : ∀ w ∈ s.W, w.length = x.length) (k : Nat) (w : List α) (hk : s.W[k]? = some w) :
+    ∃ w', (stepFit (fuzzyKernel alpha β d) cfg th0 veto s x).1.W[k]? = some w' ∧ vle w' w := by
+  obtain ⟨_, _, h | h⟩ := stepFit_frame (fuzzyKernel alpha β d) cfg th0 veto s x
+  · obtain ⟨hlt, w0, hw0, hW, _⟩ := h
+    rw [hW]
+    by_cases e : (stepFit (fuzzyKernel alpha β d) cfg th0 veto s x).2 = k
+    · rw [e] at hw0 hW ⊢
+      rw [hk] at hw0
+      obtain rfl := Option.some.inj hw0
+      have hkl : k < s.W.length := (List.getElem?_eq_some_iff.mp hk).1
+      refine ⟨_, List.getElem?_set_self hkl, ?_⟩
+      exact fuzzyUpdate_le β hβ0 hβ1 x w (hlen w (List.mem_of_getElem? hk)).symm
+    · exact ⟨w, by rw [List.getElem?_set_ne e]; exact hk, vle_refl w⟩
+  · obtain ⟨_, hW, _⟩ := h
+    rw [hW]
+    have hkl : k < s.W.length := (List.getElem?_eq_some_iff.mp hk).1
+    exact ⟨w, by rw [List.getElem?_append_left hkl]; exact hk, vle_refl w⟩
+
+/-- A sample once enclosed (`w ≤ x` component-wise on the complement-coded row,
+equivalently `x ∧ w = w`) is never expelled: later weights are ≤ the old one. -/
+theorem enclosed_stays_enclosed (x w w' : List α) (henc : vle w x) (hshrink : vle w' w) :
+    vle w' x ∧ vmin x w' = w' :=
+  ⟨vle_trans hshrink henc, vmin_eq_right_of_vle (vle_trans hshrink henc)⟩
+
+/-- **Vigilance bound** `|w| ≥ rho·d` is an invariant of training in every mode that
+never lowers the threshold (no reset function, MT+, MT0, MT1, MT~ with `eps ≥ 0`):
+if all stored weights satisfy it and the sample has `|x| = d` (exact complement
+coding) then so do all weights after the step. -/
+theorem fuzzy_size_bound_step (alpha β d ρ eps top : α) (hβ0 : 0 ≤ β) (hβ1 : β ≤ 1) (hd : 0 < d)
+    (hρ1 : ρ ≤ 1) (heps : 0 ≤ eps) (htop : ρ ≤ top) (mode : MT) (hmode : mode ≠ .minus)
+    (veto : Nat → Bool) (s : ArtState (List α)) (x : List α)
+    (hx : vsum x = d) (hlen : ∀ w ∈ s.W, w.length = x.length)
+    (hinv : ∀ w ∈ s.W, ρ * d ≤ vsum w) :
+    ∀ w ∈ (stepFit (fuzzyKernel alpha β d)
+        (scalarCfg mode false (· + eps) (· - eps) top) ρ veto s x).1.W, ρ * d ≤ vsum w := by
+  set K := fuzzyKernel alpha β d
+  set cfg : SearchCfg α α := scalarCfg mode false (· + eps) (· - eps) top
+  -- thresholds in force never drop below rho
+  have hQ : ∀ th m, ρ ≤ th → cfg.passes th m = true → ρ ≤ cfg.track th m := by
+    intro th m hth hp
+    cases mode <;>
+      simp only [cfg, scalarCfg, trackScalar, passesScalar, mtStrict, decide_eq_true_eq] at hp ⊢
+    · linarith
+    · exact absurd rfl hmode
+    · exact le_of_lt (lt_of_le_of_lt hth hp)
+    · exact htop
+    · exact hth
+  intro w' hw'
+  unfold stepFit at hw'
+  split at hw'
+  · -- first sample: new category = x
+    simp only [applyWinner, List.mem_append, List.mem_singleton] at hw'
+    rcases hw' with h | h
+    · exact hinv _ h
+    · have : vsum w' = d := by rw [h]; exact hx
+      rw [this]; nlinarith
+  · cases hwin : (stepSearch K cfg ρ veto s.W x).winner with
+    | none =>
+      rw [hwin] at hw'
+      simp only [applyWinner, List.mem_append, List.mem_singleton] at hw'
+      rcases hw' with h | h
+      · exact hinv _ h
+      · have : vsum w' = d := by rw [h]; exact hx
+        rw [this]; nlinarith
+    | some c =>
+      rw [hwin] at hw'
+      have hlt := stepSearch_winner_lt K cfg ρ veto s.W x c hwin
+      obtain ⟨th, hth, hp⟩ := stepSearch_winner_passes K cfg ρ veto s.W x c (fun t => ρ ≤ t) le_rfl hQ hwin
+      have hwc : s.W[c]? = some s.W[c] := List.getElem?_eq_getElem hlt
+      simp only [applyWinner, hwc] at hw'
+      obtain ⟨i, hi⟩ := List.getElem?_of_mem hw'
+      by_cases e : c = i
+      · subst e
+        rw [List.getElem?_set_self hlt] at hi
+        simp only [Option.some.injEq] at hi
+        subst hi
+        have hwmem : s.W[c] ∈ s.W := List.getElem_mem hlt
+        have hmatch : matchAt K s.W x c = fuzzyMatch d x s.W[c] := by
+          simp [matchAt, hwc, K, fuzzyKernel]
+        rw [hmatch] at hp
+        have hpass : ρ ≤ fuzzyMatch d x s.W[c] := by
+          cases mode <;>
+            simp only [cfg, scalarCfg, passesScalar, mtStrict, decide_eq_true_eq] at hp
+          · linarith
+          · exact absurd rfl hmode
+          · exact le_of_lt (lt_of_le_of_lt hth hp)
+          · linarith
+          · exact le_of_lt (lt_of_le_of_lt hth hp)
+        rw [fuzzyMatch_ge_iff d ρ hd] at hpass
+        exact fuzzy_size_step β (ρ * d) hβ0 hβ1 x s.W[c] (hlen _ hwmem).symm hpass (hinv _ hwmem)
+      · rw [List.getElem?_set_ne e] at hi
+        exact hinv _ (List.mem_of_getElem? hi)
+
+/-- **MT− may break the bound** (finding F20, by design of MT−): the tracking
+rule lowers the threshold below the configured vigilance.  Witness over ℚ: with
+`rho = 1/2`, `eps = 1/2`, a vetoed best match `M = 1/2` drops the threshold to 0. -/
+theorem mt_minus_lowers_threshold_counterexample :
+    (scalarCfg (α := ℚ) .minus false (· + 1/2) (· - 1/2) 10).track (1/2) (1/2) < 1/2 := by
+  norm_num [scalarCfg, trackScalar]
+
+/-! ### Hypersphere ART radius rule -/
+
+/-- radii never decrease and never exceed the largest distance seen at the step -/
+theorem sphere_radius_monotone (β R dist : α) (hβ0 : 0 ≤ β) (hβ1 : β ≤ 1) :
+    R ≤ R + β / (1 + 1) * (max R dist - R) ∧ R + β / (1 + 1) * (max R dist - R) ≤ max R dist :=
+  sphere_radius_between β R dist hβ0 hβ1
+
+/-- **Radius bound, one step**: if the category passed the vigilance test
+`M ≥ rho` then its new radius is at most `r̂(1 − rho)`. -/
+theorem sphere_radius_bound_step (β rhat ρ R dist : α) (hβ0 : 0 ≤ β) (hβ1 : β ≤ 1) (hr : 0 < rhat)
+    (hpass : ρ ≤ 1 - max R (max R dist) / rhat) :
+    R + β / (1 + 1) * (max R dist - R) ≤ rhat * (1 - ρ) :=
+  le_trans (sphere_radius_between β R dist hβ0 hβ1).2 ((sphere_match_ge_iff rhat ρ R dist hr).mp hpass)
+
+/-- Ellipsoid ART has the same radius rule with `M = 1 − (R + max(R,dist))/r̂`:
+passing `M ≥ rho` bounds the new radius by `r̂(1 − rho)/2`. -/
+theorem ellipsoid_radius_bound_step (β rhat ρ R dist : α) (hβ0 : 0 ≤ β) (hβ1 : β ≤ 1) (hr : 0 < rhat)
+    (hpass : ρ ≤ 1 - (R + max R dist) / rhat) :
+    R + β / (1 + 1) * (max R dist - R) ≤ rhat * (1 - ρ) / (1 + 1) := by
+  have h1 : (R + max R dist) / rhat ≤ 1 - ρ := by linarith
+  rw [div_le_iff₀ hr] at h1
+  have h2 := (sphere_radius_between β R dist hβ0 hβ1).2
+  have h3 : R ≤ max R dist := le_max_left R dist
+  have h4 : (0:α) ≤ β / (1 + 1) := by positivity
+  have h5 : β / (1 + 1) ≤ 1 / (1 + 1) := by
+    apply div_le_div_of_nonneg_right hβ1; norm_num
+  rw [le_div_iff₀ (by norm_num : (0:α) < 1 + 1)]
+  have h6 : 0 ≤ max R dist - R := sub_nonneg.mpr h3
+  nlinarith
+
+/-- **Each new hypersphere contains the old one**, in the form that needs no
+square root: the centre moves along `x − c` by the factor `t = β/2·(1 − min(R,dist)/dist)`,
+so `‖c' − c‖ = t·dist`, and `t·dist = R' − R`; hence `‖c' − c‖ + R = R'` — the old
+sphere is internally tangent to (inside) the new one. -/
+theorem sphere_contains_old_sq (β R dist : α) (hd : 0 < dist) :
+    β / (1 + 1) * (1 - min R dist / dist) * dist = (R + β / (1 + 1) * (max R dist - R)) - R := by
+  have hne : dist ≠ 0 := ne_of_gt hd
+  rcases le_total R dist with h | h
+  · rw [min_eq_left h, max_eq_right h]; field_simp; ring
+  · rw [min_eq_right h, max_eq_left h]; field_simp; ring
+
+/-! ### Gaussian / Bayesian ART: exact mean and count -/
+
+/-- scalar running-moment fold: `(mean, n)` after absorbing the members one by one -/
+def meanCountFold : List α → Option (α × α)
+  | [] => none
+  | m :: ms => some (ms.foldl (fun (p : α × α) x => ((1 - 1 / (p.2 + 1)) * p.1 + 1 / (p.2 + 1) * x, p.2 + 1)) (m, 1))
+
+/-- **Exact mean and count**: the running update holds exactly `(Σ members / #members, #members)`. -/
+theorem mean_count_exact (ms : List α) (m : α) :
+    meanCountFold (m :: ms) = some ((m + ms.sum) / ((ms.length : α) + 1), (ms.length : α) + 1) := by
+  simp only [meanCountFold, Option.some.injEq]
+  have key : ∀ (ms : List α) (S n : α), 0 < n →
+      ms.foldl (fun (p : α × α) x => ((1 - 1 / (p.2 + 1)) * p.1 + 1 / (p.2 + 1) * x, p.2 + 1)) (S / n, n)
+        = ((S + ms.sum) / (n + ms.length), n + ms.length) := by
+    intro ms
+    induction ms with
+    | nil => intro S n _; simp
+    | cons x xs ih =>
+      intro S n hn
+      simp only [List.foldl_cons, List.sum_cons, List.length_cons, Nat.cast_add, Nat.cast_one]
+      rw [running_mean_scalar n S x hn, ih (S + x) (n + 1) (by positivity)]
+      congr 1 <;> ring
+  have := key ms m 1 one_pos
+  simp only [div_one] at this
+  rw [this]
+  congr 1 <;> ring
+
+/-! ### Non-vacuity -/
+
+example : meetAll [[(1:ℚ)/4, 1/2, 3/4, 1/2], [1/2, 1/4, 1/2, 3/4]] = some [1/4, 1/4, 1/2, 1/2] := by
+  norm_num [meetAll, vmin]
+example : meanCountFold [(1:ℚ), 2, 6] = some (3, 3) := by
+  norm_num [meanCountFold]
+
+end Field
 
 end Art.C02
